@@ -8,6 +8,7 @@ package main
 
 import (
 	"fmt"
+	"math"
 	"net/http"
 	"sort"
 	"strings"
@@ -30,6 +31,10 @@ type scriptCfg struct {
 }
 
 func (c scriptCfg) options() []func(*vegeta.Attacker) {
+	if c.Max == math.MaxUint64 && !c.MaxFirst {
+		// no limit, the way most attacks run: the option is not given at all (the default is MaxUint64)
+		return []func(*vegeta.Attacker){vegeta.Workers(c.Workers)}
+	}
 	if c.MaxFirst {
 		return []func(*vegeta.Attacker){vegeta.MaxWorkers(c.Max), vegeta.Workers(c.Workers)}
 	}
@@ -277,7 +282,7 @@ func (x *scriptExec) apply(e string) {
 	case "Cok", "Cerr", "CokNew":
 		o := rtOutcome{status: 200, body: "ok"}
 		if e == "Cerr" {
-			o = rtOutcome{err: errInjected}
+			o = rtOutcome{err: nextTransportErr()}
 		}
 		if _, ok := x.rt.Release(e == "CokNew", o); !ok {
 			x.failed = true
